@@ -46,6 +46,9 @@ checks = {
  "C20": ("E1", "exhaustive enumeration of function lists, regroupings, adapter arities, Trampoline step functions, ordered pattern subsets x probe values against reference evaluators, plus " + E1,
    "Sequential part: all function lists of length 1-4 (thorough 5) over 5 non-commuting tagged functions and all lists of length up to 6 over 2, each handed as ONE shared slice to Compose, Pipe, their regroupings at every split point and the interface{} twins, applied twice, with the caller's slice re-inspected; every Curry*/MakeVariadic* arity with distinguishable arguments; Trampoline for all (done at k, error at k) step functions; sequential CurryDef; NewCompData over all argument tuples up to length 3 of a 6-value alphabet; every ordered subset of {Kind(Int), Kind(String), SumType, Equal, Regex, Otherwise} (1957 lists) x 20-24 probe values (numbers, strings, nil, typed nil pointers, structs, pointers to structs and to nil pointers, slices, maps, CompData of matching / other type) against a first-match reference evaluator (panic iff nothing accepts). Concurrent part: all schedules (pre-emption bound 2/3) of 2-4 goroutines calling CurryDef.Call with a function that yields inside and marks done at 1-3 arguments.",
    "Bounded list lengths / alphabets / pre-emptions; SC interleavings; vsched runtime model.", "DESIGN.md §4, §2, §5 C20"),
+ "C01": ("E3", E3,
+   "The complete product of a 57-value alphabet (at least one value per reflect.Kind: every int/uint/float width incl. NaN/Inf/-0, strings, structs, nil and non-nil slices / maps / funcs / chans, pointers, pointer chains with a nil inside, typed nil pointers, untyped nil, nil error, nested Maybe up to depth 3, None, Just(None)) x both constructors x every MaybeDef observer, the concrete-only conversions, three fallbacks, four FlatMap functions (pairwise for associativity), ToMaybe, Clone; plus 21 concrete instantiations of JustGenerics[T]. Oracle: absent(v) computed from the definition; every observer must agree with it; FlatMap(f) observes as f(v); ToMaybe flattens exactly one level; Clone is an equal Maybe with a distinct pointer target; nothing panics.",
+   "Finite value alphabet (one representative per kind and per shortcut in the code).", "DESIGN.md §4, §5 C01"),
 }
 
 not_yet = "check not built yet in this round (see DESIGN.md §9 build order); no claim made"
